@@ -116,6 +116,9 @@ class Events:
         self.opaque_calls = []
         self.locals = {}         # function qualname -> {name: value} at return
         self.where_conditions = []
+        self.base_init_calls = []
+        self.linspaces = {}      # input name -> dict(a, b, num, endpoint)
+        self.intsyms = {}        # atom name -> dict(expr, rounded)
 
 
 NP_UNARY = {"sqrt", "abs", "absolute", "sign", "log", "exp", "cos", "sin", "deg2rad", "square"}
@@ -130,6 +133,10 @@ class Interp:
         self.fold_locals = True
         self._in_primitive = 0     # inside flowdyn._data (the covariant vector primitives)
         self.stn = None            # stencil.Stn when slice code is analysed
+        self.follow_base_init = True
+        self.size_atom = None      # ring element standing for the mesh size n in value arithmetic
+        self.on_setattr = None     # hook(obj, attr, value) -> value
+        self.np_hooks = {}         # numpy function name -> python callable(args, kwargs)
 
     # ------------------------------------------------------------------ entry points
     def call_function(self, func, args, kwargs=None, depth=0):
@@ -200,6 +207,8 @@ class Interp:
             raise _Return(v)
         if isinstance(st, ast.Pass):
             return
+        if isinstance(st, ast.Raise):
+            raise AnalysisError("%s:%d raise statement reached in abstract execution" % (func.qualname, st.lineno))
         if isinstance(st, ast.If):
             c = self.eval(st.test, env, func, depth)
             t = self.truth(c)
@@ -292,6 +301,15 @@ class Interp:
                     cont[idx] = v
                     return
                 raise AnalysisError("%s:%d unsupported list store" % (func.qualname, target.lineno))
+            if isinstance(cont, Vec) and isinstance(idx, tuple) and len(idx) == 2 and isinstance(idx[0], int) and _full_slice(idx[1]):
+                val = self.lift(v)
+                if idx[0] == 0:
+                    cont.x = val
+                elif idx[0] == 1:
+                    cont.y = val
+                else:
+                    raise AnalysisError("%s:%d vector component %d" % (func.qualname, target.lineno, idx[0]))
+                return
             if isinstance(cont, SArr):
                 if isinstance(v, Vec):
                     raise AnalysisError("vector stored into a 1D array")
@@ -316,6 +334,8 @@ class Interp:
         if isinstance(target, ast.Attribute):
             obj = self.eval(target.value, env, func, depth)
             if isinstance(obj, SelfObj):
+                if self.on_setattr is not None:
+                    v = self.on_setattr(obj, target.attr, v)
                 obj.attrs[target.attr] = v
                 return
         raise AnalysisError("%s:%d unsupported assignment target %s" % (func.qualname, target.lineno, unparse(target)))
@@ -400,7 +420,7 @@ class Interp:
         f = self.p.resolve_function_name(node.id, mod)
         if f is not None:
             return f
-        if node.id in ("abs", "len", "range", "min", "max", "float", "int", "enumerate", "zip"):
+        if node.id in ("abs", "len", "range", "min", "max", "float", "int", "enumerate", "zip", "round", "list"):
             return ModuleRef("builtin:" + node.id)
         raise AnalysisError("%s:%d unknown name %s" % (func.qualname, node.lineno, node.id))
 
@@ -434,6 +454,8 @@ class Interp:
                 return 1
         if a == "size" and (self.dom.is_value(obj) or isinstance(obj, Vec)):
             return LenOf(obj)
+        if isinstance(obj, dict) and a in ("get", "keys", "values", "items"):
+            return ("method", obj, a)
         if a in ("copy", "append", "keys") or a == "T":
             return ("method", obj, a)
         raise AnalysisError("%s:%d unsupported attribute .%s" % (func.qualname, node.lineno, a))
@@ -443,6 +465,14 @@ class Interp:
 
     def e_Tuple(self, node, env, func, depth):
         return [self.eval(e, env, func, depth) for e in node.elts]
+
+    def e_Dict(self, node, env, func, depth):
+        out = {}
+        for k, v in zip(node.keys, node.values):
+            if k is None:
+                raise AnalysisError("dictionary unpacking unsupported")
+            out[self.eval(k, env, func, depth)] = self.eval(v, env, func, depth)
+        return out
 
     def e_ListComp(self, node, env, func, depth):
         if len(node.generators) != 1 or node.generators[0].ifs:
@@ -567,6 +597,10 @@ class Interp:
 
     def binop(self, op, a, b, node=None):
         ln = getattr(node, "lineno", 0)
+        if hasattr(a, "_fd_binop"):
+            return a._fd_binop(op, b, False, self)
+        if hasattr(b, "_fd_binop"):
+            return b._fd_binop(op, a, True, self)
         if isinstance(a, KIdx) or isinstance(b, KIdx):
             k, o = (a, b) if isinstance(a, KIdx) else (b, a)
             if isinstance(o, int) and isinstance(op, ast.Add):
@@ -574,6 +608,9 @@ class Interp:
             if isinstance(o, int) and isinstance(op, ast.Sub) and k is a:
                 return KIdx(k.n, k.off - o)
             raise AnalysisError("line %d: unsupported index arithmetic" % ln)
+        if self.size_atom is not None and (isinstance(a, NLin) or isinstance(b, NLin)) and (self.dom.is_value(a) or self.dom.is_value(b) or isinstance(a, Fraction) or isinstance(b, Fraction) or isinstance(op, (ast.Div, ast.Mult)) and isinstance(a, NLin) and isinstance(b, NLin)):
+            cv = lambda x: (self.dom.add(self.dom.mul(self.size_atom, self.dom.const(x.a)), self.dom.const(x.b)) if isinstance(x, NLin) else x)
+            return self.binop(op, cv(a), cv(b), node)
         if (isinstance(a, NLin) or isinstance(b, NLin)) and not isinstance(a, SArr) and not isinstance(b, SArr):
             if (isinstance(a, (NLin, int)) or (isinstance(a, Fraction) and a.denominator == 1)) and (isinstance(b, (NLin, int)) or (isinstance(b, Fraction) and b.denominator == 1)):
                 x, y = NLin.lift(a), NLin.lift(b)
@@ -733,6 +770,17 @@ class Interp:
         return ("lambda", node, dict(env), func)
 
     def e_Call(self, node, env, func, depth):
+        if isinstance(node.func, ast.Attribute) and node.func.attr == "__init__":
+            ci = self.p.resolve_class_expr(node.func.value, func.module)
+            if ci is not None:
+                args = [self.eval(a, env, func, depth) for a in node.args]
+                kwargs = {k.arg: self.eval(k.value, env, func, depth) for k in node.keywords if k.arg}
+                self.ev.base_init_calls.append((ci, args, kwargs))
+                if self.follow_base_init:
+                    init = self.p.resolve(ci, "__init__")
+                    if init is not None:
+                        return self.call_function(init, args, kwargs, depth + 1)
+                return None
         f = self.eval(node.func, env, func, depth)
         args = [self.eval(a, env, func, depth) for a in node.args]
         kwargs = {k.arg: self.eval(k.value, env, func, depth) for k in node.keywords if k.arg}
@@ -756,6 +804,15 @@ class Interp:
                 return None
             if name == "keys" and isinstance(obj, ParamDict):
                 return sorted(obj.present)
+            if isinstance(obj, dict):
+                if name == "get":
+                    return obj.get(args[0], args[1] if len(args) > 1 else None)
+                if name == "keys":
+                    return list(obj.keys())
+                if name == "values":
+                    return list(obj.values())
+                if name == "items":
+                    return [[k, v] for k, v in obj.items()]
             raise AnalysisError("%s:%d unsupported method .%s" % (func.qualname, ln, name))
         if isinstance(f, tuple) and f and f[0] == "lambda":
             _, lam, lenv, lfunc = f
@@ -805,9 +862,15 @@ class Interp:
                 return self.binary("minimum" if base == "min" else "maximum", args[0], args[1], ln)
             if base == "float":
                 return args[0]
+            if base in ("int", "round", "list") and ("builtin:" + base) in self.np_hooks:
+                return self.np_hooks["builtin:" + base](args, kwargs)
+            if base == "list" and isinstance(args[0], (list, tuple)):
+                return list(args[0])
             raise AnalysisError("%s:%d unsupported builtin %s" % (func.qualname, ln, base))
         if not name.startswith("np"):
             raise AnalysisError("%s:%d call into unknown module %s" % (func.qualname, ln, name))
+        if base in self.np_hooks:
+            return self.np_hooks[base](args, kwargs)
         if base in NP_UNARY:
             return self.unary(base, args[0], ln)
         if base in ("minimum", "maximum"):
@@ -828,6 +891,8 @@ class Interp:
             return SArr(args[0], [(0, args[0], self.dom.const(0))])
         if base == "arange" and len(args) == 1 and isinstance(args[0], NLin):
             return RangeSym(args[0])
+        if base == "zeros" and args and isinstance(args[0], (list, tuple)) and len(args[0]) == 2 and args[0][0] == 2:
+            return Vec(self.dom.const(0), self.dom.const(0))
         if base in ("zeros", "zeros_like"):
             return 0
         if base == "sum":
